@@ -313,6 +313,9 @@ def array_abs(obj):
                "norm of a {}, try norm(...) instead.".format(
                MathArray.get_shape_name(obj.ndim)))
         raise FunctionEvalError(msg)
+    if isinstance(obj, Number):
+        # norm squares its input, which underflows/overflows for tiny/huge numbers
+        return np.abs(obj)
     return np.linalg.norm(obj)
 
 ARRAY_ONLY_FUNCTIONS = {
